@@ -24,6 +24,15 @@ def root_of(v):
         elif k == "local":
             return ("local", v[1]), tuple(v[2]) + names
         elif k == "call":
+            # `.map_err(f)` changes nothing but the error's payload: a test of the variant or of the Ok payload is a test of the receiver
+            if v[1] in ("core::result::Result::map_err", "core::task::poll::Poll::map_err") and v[2] and \
+                    not (names and names[0] in ("<Err>", "?err") and len(names) > 1):
+                v = v[2][0]
+                continue
+            # the variant test `?` makes (Continue / Break of Try::branch) is a test of its operand's Ok / Err
+            if v[1].endswith("try_trait::Try>::branch") and not names and v[2]:
+                v = v[2][0]
+                continue
             return ("call", v[1], v[3]), names
         else:
             return None, names
@@ -50,7 +59,7 @@ def classify(p, want_root):
         root, names = root_of(t[3])
         if root is None or not want_root(root):
             continue
-        out[_norm(names)] = t[2]
+        out[_norm(names)] = {"Continue": "Ok", "Break": "Err"}.get(t[2], t[2])
     return out
 
 
@@ -138,6 +147,11 @@ def _fatal_direct(prog, p, depth):
     return fatal, frozenset(codes)
 
 
+MARKERS = ("reset", "stop_sending", "stop_stream", "send_response", "process_goaway", "set_settings", "poll_data",
+           "got_frame_error", "handle_quic_stream_error", "handle_frame_stream_error_on_request_stream", "decode_stateless",
+           "poll_grease_stream", "into_inner", "accept_with_frame")
+
+
 def outcome(prog, p):
     """(return shape, codes raised as connection errors, other (callee, code) uses, fatal?, markers)."""
     fatal, codes_new = _fatal_direct(prog, p, 2)
@@ -146,10 +160,15 @@ def outcome(prog, p):
     markers = []
     for e in p.calls():
         n = e[2].cname
-        if n in ("reset", "stop_sending", "stop_stream", "send_response", "process_goaway", "set_settings", "poll_data",
-                 "got_frame_error", "handle_quic_stream_error", "handle_frame_stream_error_on_request_stream", "decode_stateless",
-                 "poll_grease_stream", "into_inner", "accept_with_frame"):
+        if n in MARKERS:
             if n not in markers:
                 markers.append(n)
+    # a closure handed to `.map_err(..)` / `.ok_or_else(..)` that certainly ran on this path (the receiver's variant is known) acted too
+    for ck, st, _ in p.adapter_closures():
+        if st == "yes":
+            for c in prog.by_key.get(ck, []):
+                for _, t in c.calls(*MARKERS):
+                    if t.cname not in markers:
+                        markers.append(t.cname)
     shape = p.ret_shape() if p.end == "return" else p.end
     return (shape, frozenset(codes_new), frozenset(other), bool(fatal), tuple(markers))
